@@ -1,0 +1,56 @@
+//go:build verif
+
+package soyhtml
+
+import (
+	"sync/atomic"
+
+	"github.com/robfig/soy/ast"
+)
+
+// Verification hooks (build tag "verif"). They observe only; the single
+// behavioural knob is VerifYield, which lets a harness insert scheduler
+// yields between walk steps to widen interleavings.
+
+var (
+	// VerifUnbound is called when a scope lookup finds no frame binding the key.
+	VerifUnbound func(key string)
+	// VerifWalk is called at the top of every (*state).walk.
+	VerifWalk func(node ast.Node)
+	// VerifYield is called at the top of every (*state).walk, after VerifWalk.
+	VerifYield func()
+
+	VerifWalkSteps int64
+	VerifWorkSteps int64
+
+	// VerifWorkLimit, if non-zero, is the number of walk+work steps after
+	// which VerifOverBudget is called.
+	VerifWorkLimit  int64
+	VerifOverBudget func(kind string, steps int64)
+)
+
+func verifUnbound(k string) {
+	if f := VerifUnbound; f != nil {
+		f(k)
+	}
+}
+
+func verifWalk(node ast.Node) {
+	n := atomic.AddInt64(&VerifWalkSteps, 1)
+	if l := atomic.LoadInt64(&VerifWorkLimit); l > 0 && n+atomic.LoadInt64(&VerifWorkSteps) == l && VerifOverBudget != nil {
+		VerifOverBudget("walk", n)
+	}
+	if f := VerifWalk; f != nil {
+		f(node)
+	}
+	if f := VerifYield; f != nil {
+		f()
+	}
+}
+
+func verifWork() {
+	n := atomic.AddInt64(&VerifWorkSteps, 1)
+	if l := atomic.LoadInt64(&VerifWorkLimit); l > 0 && n+atomic.LoadInt64(&VerifWalkSteps) == l && VerifOverBudget != nil {
+		VerifOverBudget("work", n)
+	}
+}
